@@ -117,15 +117,17 @@ def flushQueue (st : St) : Res Tree :=
   let t : Tree := { st.tree with root := { st.tree.root with needsLater := false } }
   applyChanges st.fuel { t with root := { t.root with changes := [] } } t.root.changes
 
+/-- The root's bookkeeping once the damage has been taken for rendering. -/
+def rendered (t : Tree) : Tree :=
+  { t with root := { t.root with needsExpose := false, damage := [], needsRestore := false } }
+
 /-- The second half: render every damage rectangle into a fresh buffer and flush it to the terminal. -/
 def flushRender (beh : Id → Rect → List DrawOp) (st : St) (t : Tree) : Res (St × List Shot) := do
   if t.root.needsExpose then
     let root ← get t 0
     let rb := RB.new root.rect.lines root.rect.cols
-    let rects := t.root.damage
-    let t : Tree := { t with root := { t.root with needsExpose := false, damage := [], needsRestore := false } }
-    let s ← exposeRects beh t st.pens st.fuel ⟨0, 0, root.rect.lines, root.rect.cols⟩ rects (rb, [])
-    pure ({ st with tree := t, screen := s.1.flushToGrid st.screen }, s.2)
+    let s ← exposeRects beh (rendered t) st.pens (t.wins.size + 1) ⟨0, 0, root.rect.lines, root.rect.cols⟩ t.root.damage (rb, [])
+    pure ({ st with tree := rendered t, screen := s.1.flushToGrid st.screen }, s.2)
   else
     pure ({ st with tree := { t with root := { t.root with needsRestore := false } } }, [])
 
